@@ -27,6 +27,8 @@ def shape_edges(shape, vs):
         return [(vs[i], vs[(i + 1) % n]) for i in range(n)] + [(vs[0], vs[2])]
     if shape == "diamond":
         return [(vs[0], vs[1]), (vs[1], vs[2]), (vs[2], vs[3]), (vs[3], vs[0]), (vs[0], vs[2]), (vs[1], vs[3])]
+    if shape == "double":          # two vertices, exactly two (reciprocal) edges
+        return [(vs[0], vs[1]), (vs[1], vs[0])]
     if shape == "empty":
         return []
     raise ValueError(shape)
@@ -34,7 +36,7 @@ def shape_edges(shape, vs):
 
 FAST_MENU = [("clique", 2), ("clique", 2), ("clique", 3), ("clique", 3), ("clique", 4), ("clique", 5), ("cycle", 3), ("cycle", 4),
              ("cycle", 5), ("cycle", 6), ("diamond", 4), ("star", 3), ("star", 4), ("path", 2), ("path", 3), ("path", 4),
-             ("chord", 4), ("chord", 5)]
+             ("chord", 4), ("chord", 5), ("double", 2), ("double", 2)]
 
 # custom motifs: (orbit sizes, shape over the concatenated vertices, naming style)
 CUSTOM_MENU = [
